@@ -19,7 +19,9 @@ EXPLANATION = (
     "the former; SimpleWatchdog.isExpired is the strict comparison now > expiry, enable/reset/setTimeout store expiry = this call's "
     "clock read + timeout, and printIfExpired warns only when expired and more than 1e6 us after the last warning, storing now there and "
     "only there (also with no epochs recorded); the rate-limit anchors have no other writers.  The step from these per-call facts to "
-    "'at most once per period' is the two-line induction in DESIGN.md section 7 (C19), assuming a non-decreasing clock."
+    "'at most once per period' is the two-line induction in DESIGN.md section 7 (C19), assuming a non-decreasing clock.  Roles are "
+    "inferred on slots (attributes, elements of stored tuples / named tuples, attributes of private records); wpilib.Timer objects are "
+    "interpreted from sa/prelude/wpilib_timer.py (trusted model of WPILib's semantics), so an anchor kept inside a Timer is found too."
 )
 RULE = "one obligation per path of each accessor with symbolic fields; Toggle: exhaustive closure of its boolean typestate space"
 EXHAUSTIVE = True
@@ -219,11 +221,28 @@ def button_debouncer(ctx):
     site = (K.module.filename, K.lookup("get")[1].node.lineno, "ButtonDebouncer.get")
     L, P = Sym("latest", "num", uid=0), Sym("P", "num", uid=0)
 
-    def run(it, w):
+    # role of the anchor ("time of the last accepted press"): the one numeric slot that a get() call can change
+    # (WPILib's Timer is interpreted from sa/prelude/wpilib_timer.py, so an anchor kept inside a Timer is found too)
+    def probe(it, w):
+        it.model_wpilib_timer = True
         o = it.call(K, [Ext("joystick", "user", role="instance"), Sym("buttonnum", "num", uid=0)], {"period": P})
-        anchor = [k for k, v in fn.slots(o).items() if isinstance(v, int) and not isinstance(v, bool)]
-        if len(anchor) != 1:
-            raise AnalysisError(f"cannot infer the 'last accepted press' field of ButtonDebouncer: {dict(fn.slots(o).items())}")
+        before = dict(fn.slots(o).items())
+        it.call(it.getattr(o, "get"), [], {})
+        after = dict(fn.slots(o).items())
+        return [k for k in after if k in before and not isinstance(after[k], (Ext, bool)) and after[k] is not None and not _lin_eq(after[k], before[k])]
+
+    changed = set()
+    for q in fn.all_paths(ctx, probe):
+        if q.outcome == "return":
+            changed.update(q.value)
+    if len(changed) != 1:
+        raise AnalysisError(f"cannot infer the 'last accepted press' slot of ButtonDebouncer: get() changes {sorted(changed)}")
+    the_anchor = next(iter(changed))
+
+    def run(it, w):
+        it.model_wpilib_timer = True
+        o = it.call(K, [Ext("joystick", "user", role="instance"), Sym("buttonnum", "num", uid=0)], {"period": P})
+        anchor = [the_anchor]
         fn.slots(o)[anchor[0]] = L
         r = it.call(it.getattr(o, "get"), [], {})
         if isinstance(r, Cond):
